@@ -372,6 +372,7 @@ func (c *Channel) NewStream(ctx context.Context, desc *grpc.StreamDesc, method s
 			requests:  requests,
 			responses: responses,
 			onDone:    svrDoneCancel,
+			recvCtx:   svrDoneCtx,
 		}
 		sts := &internal.ServerTransportStream{Name: method, Stream: serverStream}
 		serverStream.ctx = grpc.NewContextWithServerTransportStream(svrCtx, sts)
@@ -472,8 +473,12 @@ const (
 // communicate request and response messages from/to the client (which runs in a
 // separate goroutine).
 type inProcessServerStream struct {
-	ctx      context.Context
-	onDone   context.CancelFunc
+	ctx    context.Context
+	onDone context.CancelFunc
+	// recvCtx ends when ctx does and also as soon as the handler has returned,
+	// before finish flushes the final messages: a RecvMsg still in flight on
+	// another goroutine must not stay blocked until the client has taken them
+	recvCtx  context.Context
 	cloner   Cloner
 	requests <-chan frame
 
@@ -597,7 +602,7 @@ func (s *inProcessServerStream) SendMsg(m interface{}) error {
 }
 
 func (s *inProcessServerStream) RecvMsg(m interface{}) error {
-	resp, err := readMessage(s.ctx, s.requests)
+	resp, err := readMessage(s.recvCtx, s.requests)
 	if err != nil {
 		return err
 	}
